@@ -4,6 +4,8 @@ Differential oracle against a fresh interpreter state: the checking process is a
 executed); a history of catalogue calls runs in forked child A, every call of it runs alone in its own forked child B_i;
 observations must agree and argument buffers must be left unchanged (documented in-place Hamming repairs excepted).
 Compound steps (scribble-and-repeat, argument re-use) check that caches / defaults never alias caller-visible mutable objects.
+Related values (round 7): clusters of calls sharing a coarse key (enum fold targets, sibling codes / writers / modes, same-named
+arguments, near-twins) run as circuits, X Y X triples and kept-alive batches; refused wrong-typed calls alternate with valid ones.
 Wall-clock / randomness clause: two fresh interpreters with pinned clocks 400 days apart and different random streams
 must agree on every parsing call; a third one (same clock, PYTHONMALLOC=debug) must agree on every call, which makes a
 dependence on uninitialised memory (heap state left by earlier calls) visible.  Machinery: vp/purity.py.
@@ -15,7 +17,7 @@ import json
 from vp.core import Ctx, Fail, HarnessError, SubCheck, Tally
 from vp.purity import (
     CATALOGUE, Bits, BitsVar, Cat, Choice, Const, Flag, Hex, HexVar, Int, ListOf, Map, OneOf, Rec, Seq, Vec, ZygotePair,
-    PIN_DATES, args_strategy, canonical_calls, entry, fork_run, mode_families, reject_candidates, unusual_candidates,
+    PIN_DATES, args_strategy, canonical_calls, entry, fork_run, mode_families, reject_candidates, unusual_candidates, wrong_type_candidates,
 )
 
 LEVEL = "exploration"
@@ -315,14 +317,17 @@ def _(a, T):
     return _hamming(a["cb"]["code"]).correct_numpy_array(T.np([int(c) for c in a["cb"]["bits"]]))
 
 
-@entry("hamming.encode_then_repair", "fec", dict(cb=_code_bits(3), flip=Int(0, 16)),
-       doc="generate, then the documented in-place repair applied to the *returned* codeword with one flipped bit", ncanon=6)
+@entry("hamming.encode_then_repair", "fec", dict(cb=_code_bits(3), flip=Int(0, 16), flip2=OneOf(Const(None), Const(None), Int(0, 16))),
+       doc="generate, then the documented in-place repair applied to the *returned* codeword with one flipped bit (flip2: a second one - a double error, "
+           "which the distance-4 code must report and the distance-3 codes miscorrect in their own fixed way)", ncanon=6)
 def _(a, T):
     from okdmr.dmrlib.utils.bits_bytes import numpy_array_to_bitarray
 
     H = _hamming(a["cb"]["code"])
     cw = numpy_array_to_bitarray(H.generate(T.bits(a["cb"]["bits"])))
     cw.invert(a["flip"] % len(cw))
+    if a.get("flip2") is not None and a["flip2"] % len(cw) != a["flip"] % len(cw):
+        cw.invert(a["flip2"] % len(cw))
     return H.check_and_correct(cw)
 
 
@@ -479,6 +484,38 @@ def _(a, T):
     from okdmr.dmrlib.etsi.fec.trellis import Trellis34
 
     return Trellis34.decode(T.bits(a["bits"]))
+
+
+@entry("trellis.stages", "bptc", dict(tribits=ListOf(Int(0, 7), 49, 49), cut=Choice([49, 49, 49, 48, 50])), parse=True, ncanon=2,
+       doc="the public stage helpers on an ARBITRARY tribit path - the last ('flush') tribit included, which this library's own encoder always sets "
+           "to 0: tribits_to_points, points_to_dibits, interleave, dibits_to_bits; then decode of that stream (a valid trellis path as a receiver may "
+           "get it) and the decoder's stage helpers on it")
+def _(a, T):
+    from array import array
+
+    from okdmr.dmrlib.etsi.fec.trellis import Trellis34 as Tr
+
+    tri = T.track(array("B", a["tribits"][: a["cut"]] + [0] * max(0, a["cut"] - 49)), "tribits")
+    points = Tr.tribits_to_points(tri)
+    stream = Tr.dibits_to_bits(Tr.interleave(Tr.points_to_dibits(points)))
+    T.track(stream, "stream")
+    back = Tr.dibits_to_points(Tr.deinterleave(Tr.bits_to_dibits(stream)))
+    return (points, stream, Tr.decode(stream), back, Tr.points_to_tribits(back), Tr.tribits_to_bits(tri))
+
+
+@entry("rs.helpers", "fec", dict(x=Int(0, 255), y=Int(0, 255), data=Hex(3), mask=Hex(3)), ncanon=2, doc="ReedSolomon1294.log_multiply / xor_bytes")
+def _(a, T):
+    from okdmr.dmrlib.etsi.fec.reed_solomon_12_9_4 import ReedSolomon1294 as R
+
+    return (R.log_multiply(a["x"], a["y"]), R.log_multiply(a["y"], a["x"]), R.xor_bytes(T.bytes(a["data"]), T.bytes(a["mask"])))
+
+
+@entry("fec.syndrome", "fec", dict(cb=_code_bits(2)), ncanon=2, doc="fec_utils.get_syndrome_for_word(word, parity check matrix of the code)")
+def _(a, T):
+    from okdmr.dmrlib.etsi.fec.fec_utils import get_syndrome_for_word
+
+    H = _hamming(a["cb"]["code"])
+    return get_syndrome_for_word(T.np([int(c) for c in a["cb"]["bits"]], "word"), H.PARITY_CHECK_MATRIX)
 
 
 # ---------------------------------------------------------------------------------------------- bit / byte utilities
@@ -756,6 +793,70 @@ def _(a, T):
     cls = getattr(importlib.import_module("okdmr.dmrlib." + ELEMENTS[c][0]), c)
     o = cls.from_bits(T.bits(a["eb"]["bits"]))
     return (o, o.as_bits() if hasattr(o, "as_bits") else None)
+
+
+# every integer-valued enum class of the library (name -> module below okdmr.dmrlib); half of them resolve unlisted values through a
+# `_missing_` hook (fold onto a reserved member, or reject)
+ENUM_CLASSES = {
+    "AccessTypes": "etsi.layer2.elements.access_types", "CrcMasks": "etsi.layer2.elements.crc_masks", "CsbkOpcodes": "etsi.layer2.elements.csbk_opcodes",
+    "DataPacketFormats": "etsi.layer2.elements.data_packet_formats", "DataTypes": "etsi.layer2.elements.data_types",
+    "DefinedDataFormats": "etsi.layer2.elements.defined_data_formats", "FeatureSetIDs": "etsi.layer2.elements.feature_set_ids", "FLCOs": "etsi.layer2.elements.flcos",
+    "FullMessageFlag": "etsi.layer2.elements.full_message_flag", "LCSS": "etsi.layer2.elements.lcss",
+    "PreemptionPowerIndicator": "etsi.layer2.elements.preemption_power_indicator", "ResynchronizeFlag": "etsi.layer2.elements.resynchronize_flag",
+    "SAPIdentifier": "etsi.layer2.elements.sap_identifier", "SARQ": "etsi.layer2.elements.sarq", "SLCOs": "etsi.layer2.elements.slcos",
+    "SupplementaryFlag": "etsi.layer2.elements.supplementary_flag", "SyncPatterns": "etsi.layer2.elements.sync_patterns", "UDTFormat": "etsi.layer2.elements.udt_format",
+    "VoiceBursts": "etsi.layer2.elements.voice_bursts", "Rate12DataTypes": "etsi.layer2.pdu.rate12_data", "Rate1DataTypes": "etsi.layer2.pdu.rate1_data",
+    "Rate34DataTypes": "etsi.layer2.pdu.rate34_data", "ActivityID": "etsi.layer3.elements.activity_id",
+    "AdditionalInformationField": "etsi.layer3.elements.additional_information_field", "AnnouncementType": "etsi.layer3.elements.announcement_type",
+    "AnswerResponse": "etsi.layer3.elements.answer_response", "ChannelTimingOpcode": "etsi.layer3.elements.channel_timing_opcode",
+    "DynamicIdentifier": "etsi.layer3.elements.dynamic_identifier", "IPAddressIdentifier": "etsi.layer3.elements.ip_address_identifier",
+    "PositionError": "etsi.layer3.elements.position_error", "RandomAccessServiceFunction": "etsi.layer3.elements.random_access_service_function",
+    "ReasonCode": "etsi.layer3.elements.reason_code", "SourceType": "etsi.layer3.elements.source_type", "TalkerAliasDataFormat": "etsi.layer3.elements.talker_alias_data_format",
+    "UDPPortIdentifier": "etsi.layer3.elements.udp_port_identifier", "UDTOptionFlag": "etsi.layer3.elements.udt_option_flag",
+    "CallType": "hytera.ipsc_elements.call_type", "FrameType": "hytera.ipsc_elements.frame_type", "PacketType": "hytera.ipsc_elements.packet_type",
+    "SlotType": "hytera.ipsc_elements.slot_type", "Timeslot": "hytera.ipsc_elements.timeslot", "HyteraServiceType": "hytera.pdu.hdap", "HRNPOpcodes": "hytera.pdu.hrnp",
+    "HSTRPOptionType": "hytera.pdu.hstrp", "LocationProtocolGeneralService": "hytera.pdu.location_protocol", "LocationProtocolResultCodes": "hytera.pdu.location_protocol",
+    "LocationProtocolSpecificService": "hytera.pdu.location_protocol", "DispatchStationReceivingStatus": "hytera.pdu.radio_control_protocol",
+    "RCPCallType": "hytera.pdu.radio_control_protocol", "RCPOpcode": "hytera.pdu.radio_control_protocol", "RCPResult": "hytera.pdu.radio_control_protocol",
+    "RadioIpIdTarget": "hytera.pdu.radio_control_protocol", "RepeaterMode": "hytera.pdu.radio_control_protocol", "RepeaterServiceType": "hytera.pdu.radio_control_protocol",
+    "RepeaterStatus": "hytera.pdu.radio_control_protocol", "StatusChangeNotificationSetting": "hytera.pdu.radio_control_protocol",
+    "StatusChangeNotificationTargets": "hytera.pdu.radio_control_protocol", "RRSRadioState": "hytera.pdu.radio_registration_service",
+    "RRSResult": "hytera.pdu.radio_registration_service", "RRSTypes": "hytera.pdu.radio_registration_service", "TMPResultCodes": "hytera.pdu.text_message_protocol",
+    "TMPService": "hytera.pdu.text_message_protocol", "ARSPDUType": "motorola.automatic_registration_service", "Encoding": "motorola.automatic_registration_service",
+    "FailureReason": "motorola.automatic_registration_service", "RegistrationEvent": "motorola.automatic_registration_service", "GlobalToken": "motorola.mbxml",
+    "MBXMLTokenType": "motorola.mbxml", "TMSDeviceCapability": "motorola.text_messaging_service", "TMSEncoding": "motorola.text_messaging_service",
+    "TransmissionTypes": "transmission.transmission_types",
+}
+
+
+def _enum_cls(name):
+    import importlib
+
+    return getattr(importlib.import_module("okdmr.dmrlib." + ENUM_CLASSES[name]), name)
+
+
+@entry("enum.by_value", "pdu", dict(ev=Rec(cls=Seq(sorted(ENUM_CLASSES)), value=Int(0, 255))), parse=True, ncanon=1,
+       canon=[{"ev": {"cls": "FeatureSetIDs", "value": 4}}, {"ev": {"cls": "FeatureSetIDs", "value": 0x21}}],
+       doc="Enum(value) of an information element / opcode enum (defined member, value folded by `_missing_`, or rejected) + its serialisation")
+def _(a, T):
+    try:
+        o = _enum_cls(a["ev"]["cls"])(a["ev"]["value"])
+    except (ValueError, AssertionError, TypeError) as ex:  # raised by the enum machinery itself when `_missing_` declines: a plain, deterministic result
+        return ("rejected", type(ex).__name__, str(ex))
+    return (o, o.value, o.as_bits() if hasattr(o, "as_bits") else None, o.as_bytes() if hasattr(o, "as_bytes") else None)
+
+
+@entry("enum.fold_table", "pdu", dict(cls=Seq(sorted(ENUM_CLASSES))), ncanon=0, canon=[{"cls": "FeatureSetIDs"}], no_scribble=True,
+       doc="state probe: for v in 0..255 the value carried by the member Enum(v) resolves to (-1: rejected, -2: not an integer)")
+def _(a, T):
+    cls, out = _enum_cls(a["cls"]), []
+    for v in range(256):
+        try:
+            m = cls(v).value
+            out.append(m if isinstance(m, int) and not isinstance(m, bool) else -2)
+        except Exception:
+            out.append(-1)
+    return out
 
 
 @entry("sync.resolve_bytes", "pdu", dict(data=OneOf(Choice(SYNCS), Hex(6))), parse=True)
@@ -1200,6 +1301,29 @@ def _(a, T):
     return (wu, ws, wf, wsf, MBXML.read_uintvar(wu, 0), MBXML.read_sintvar(ws, 0), MBXML.read_ufloatvar(wf, 0), MBXML.read_sfloatvar(wsf, 0))
 
 
+VAR_KINDS = ["uint", "sint", "sint_neg", "ufloat", "sfloat", "sfloat_neg"]
+
+
+@entry("mbxml.write_var", "mbxml", dict(kind=Choice(VAR_KINDS), m=Int(0, 2**31 - 1), frac=Int(0, 999), p=Int(1, 3)), ncanon=2,
+       doc="ONE variable-length writer (uintvar / sintvar / ufloatvar / sfloatvar; the sibling writers share the value arguments: magnitude m, "
+           "fraction frac/1000, precision p) and the matching reader on what it wrote")
+def _(a, T):
+    from okdmr.dmrlib.motorola.mbxml import MBXML
+
+    k, m, f = a["kind"], a["m"], a["m"] + a["frac"] / 1000
+    if k == "uint":
+        w = MBXML.write_uintvar(m)
+        return (w, MBXML.read_uintvar(w, 0))
+    if k in ("sint", "sint_neg"):
+        w = MBXML.write_sintvar(-m if k == "sint_neg" else m)
+        return (w, MBXML.read_sintvar(w, 0))
+    if k == "ufloat":
+        w = MBXML.write_ufloatvar(f, a["p"])
+        return (w, MBXML.read_ufloatvar(w, 0))
+    w = MBXML.write_sfloatvar(-f if k == "sfloat_neg" else f, a["p"])
+    return (w, MBXML.read_sfloatvar(w, 0))
+
+
 @entry("mbxml.read", "mbxml", dict(data=Cat(Hex(6), Const("00")), idx=Int(0, 3)), parse=True, doc="read_* on arbitrary bytes (terminated by a byte without continuation bit)")
 def _(a, T):
     from okdmr.dmrlib.motorola.mbxml import MBXML
@@ -1335,7 +1459,24 @@ RULE = (
     "pairs runs (unusual variant, first canonical call of every entry of the group and every mode of the entry itself), history has unusual_then_ordinary.  "
     "Rejected variants are also derived under every setting of the entry's boolean mode flags (failed call with debug=True, then valid call).  "
     "serialise_later steps: 2..4 calls keep their results, then every result is observed / serialised again (last first) after the others existed.  "
-    "Representation variants: a plain call may build its bit-string arguments as little-endian or frozen bitarrays (same bit sequence).  Non-trivial: >= 2 calls of the same group in one history (the later one is compared against its run in a fresh state); distinct by hash of the "
+    "Representation variants: a plain call may build its bit-string arguments as little-endian or frozen bitarrays (same bit sequence), its octet-string "
+    "arguments as bytearray (same octets).  "
+    "Related sub-check (round 7): clusters of calls that share a coarse key although they differ in entry point, mode or raw value - (fold) for every enum whose "
+    "lookup folds unlisted values onto a member (the fold table 0..255 is the one the library under test answers in a fresh state): the target value and the "
+    "lowest / a middle / the highest raw value folding onto it, through Enum(value), from_bits of the element and every PDU site that carries the field "
+    "(CSBK / full LC / short LC / data header / slot type / UDP header bits, CSBK / full LC / data header / ARS / TMS / IPSC octets, RCP status change); "
+    "(code) one data word and one error position 0..16 through every Hamming code, double errors next to single errors, the same word through generate / "
+    "check / repair / numpy repair / syndrome of every code, a BPTC(196,96) codeword with one error and with two errors in one matrix column next to "
+    "repairs by the sibling codes; (varint) one magnitude per bit length 1..31 through the six writers uintvar / +-sintvar / ufloatvar / +-sfloatvar; "
+    "(mode_switch) the first canonical call under every value of each switch argument (mask, configuration, endianness, burst type, block type, flag); "
+    "(transplant) the value one entry's canonical call gives an argument, handed to every entry of the group with a bit-string / octet-string / integer "
+    "argument of the same name; (radio_ip) the same four octets in either byte order through RadioIP, RRS, RCP, LP, TMP.  Every cluster runs as a circuit "
+    "(a history in which every ordered pair of its calls is adjacent once), serialise_later steps keeping all results alive (both orders), and explicit "
+    "triples X, Y, X in their own children.  (twins) per entry returning objects, both calls of every mode and near-twins of the first (one octet with the "
+    "top bit flipped / 0x7F / 0xFF, a zero octet appended / removed) are created in one child and all observed again (keep_alive step: later observation "
+    "= first observation; three of the batch also = fresh state).  (refused) a call refused for a wrong-typed argument (None / float / numeric string), "
+    "then directly the first canonical call of every entry of the group, alternating in one child.  A failing circuit / batch / alternation is cut down "
+    "to the pair or triple that still fails.  Observation order: the library's serialisation, then the attribute tree, then repr.  Non-trivial: >= 2 calls of the same group in one history (the later one is compared against its run in a fresh state); distinct by hash of the "
     "history.  Clock sub-check: the same call lists evaluated in four fresh interpreters (clocks pinned to 2026-09-26, 1971-01-02, 2099-12-30 + different random "
     "streams; first clock again with PYTHONMALLOC=debug so that uninitialised memory reads 0xCD); besides all canonical calls and generated histories it feeds "
     "GPS / LP / MBXML info-time inputs whose dates lie the day before / of / after each clock and in the two-digit years 00, 24..27, 31, 69..72, 98, 99."
@@ -1358,13 +1499,19 @@ ASSUMPTIONS = [
     "object arguments: an object explicitly passed to another entry point is snapshotted (full attribute tree); the *receiver* of the methods under test is "
     "not (its private lazy memo fields, e.g. Burst._target_radio_id_resolve_attempt, are its own business) - for receivers only the results of repeated calls "
     "are compared",
-    "representation variants (little-endian / frozen bitarray arguments) are judged by purity only: the call must give the same observation as the same call "
+    "representation variants (little-endian / frozen bitarray arguments, bytearray octet strings) are judged by purity only: the call must give the same observation as the same call "
     "(same container) in a fresh state and leave the buffer unchanged; whether the value computed for a little-endian container is *right* is C05/C06's business",
     "pinned clocks: 2026-09-26 (the project's present), 1971-01-02 and 2099-12-30, 12:00 UTC; patched before the library is imported (datetime.date / "
     "datetime.datetime subclasses, time.time, time.time_ns), so every library module sees them",
     "exemptions for argument buffers: HammingCommon.check_and_correct and BPTC19696.repair_if_necessary(deinterleaved=True) (documented in-place repair)",
     "a result that differs between CPython's normal and debug (0xCD-filling) allocator depends on uninitialised memory, i.e. on what earlier calls left "
     "on the heap; this is judged under the first clause of the statement (same arguments, same result)",
+    "refused variants with a wrong-typed argument (related sub-check) hand None / a float / a numeric string to the library as they are; they are stimulus: "
+    "judged is that the refusal is the same as in a fresh state and that the valid calls after it give their fresh-state observations.  No integer is "
+    "handed over where a buffer is expected (bitarray(7) is seven uninitialised bits)",
+    "the fold tables used to build the fold clusters are read from the library under test (enum.fold_table in a forked child); they steer the stimulus only",
+    "keep_alive batches compare the later observation of every result with its first observation in the same child (both must equal the fresh-state "
+    "observation, which is checked for three calls of the batch); a failing batch is cut down to a two-call serialise_later step judged against fresh states",
     "not in the catalogue (not codec entry points or setters by contract): transmission/terminal/timeslot tracking, datagram protocols, storage, tools, SNMP, "
     "fill_encoding_table / set_parity (write into their numpy argument by name), object setters (set_sequence_no, add_option, context, ...)",
 ]
@@ -1422,9 +1569,9 @@ def _alone(call) -> dict:
 def _check_catalogue_call(c):
     if not isinstance(c, dict) or c.get("e") not in CATALOGUE or not isinstance(c.get("a"), dict):
         raise HarnessError(f"malformed call in case: {c!r}")
-    if c.get("op") not in (None, "scribble_repeat", "reuse", "same_object", "serialise_later") or c.get("r") not in (None, "little", "frozen") or (c.get("op") == "reuse" and not isinstance(c.get("b"), dict)):
+    if c.get("op") not in (None, "scribble_repeat", "reuse", "same_object", "serialise_later", "keep_alive") or c.get("r") not in (None, "little", "frozen", "bytearray") or (c.get("op") == "reuse" and not isinstance(c.get("b"), dict)):
         raise HarnessError(f"malformed compound step in case: {c!r}")
-    if c.get("op") in ("same_object", "serialise_later") and not (isinstance(c.get("seq"), list) and c["seq"] and all(isinstance(q, dict) and q.get("e") in CATALOGUE and isinstance(q.get("a"), dict) for q in c["seq"])):
+    if c.get("op") in ("same_object", "serialise_later", "keep_alive") and not (isinstance(c.get("seq"), list) and c["seq"] and all(isinstance(q, dict) and q.get("e") in CATALOGUE and isinstance(q.get("a"), dict) for q in c["seq"])):
         raise HarnessError(f"malformed same_object step in case: {c!r}")
 
 
@@ -1434,7 +1581,9 @@ COMPOUND = {
     "reuse": ("argument_reuse_same_result", ["call with arguments a", "call with arguments b written in place into the buffers of the first call", "call with a fresh copy of arguments a"]),
     "same_object": ("same_object_again_same_result", None),
     "serialise_later": ("serialise_later_same_result", None),
+    "keep_alive": ("serialise_later_same_result", None),
 }
+KEEP_ALIVE_FRESH = 3  # of a keep_alive batch, this many calls (first, middle, last) are also compared with their fresh-state observations
 OBJ_EXPECTED = "the attribute tree (recursive, buffers by content) of every object passed as an argument equals the snapshot taken before the call"
 
 
@@ -1447,7 +1596,7 @@ def _parts(step):
         return [x, {"e": step["e"], "a": step["b"]}, x]
     if step.get("op") == "same_object":
         return [{"e": q["e"], "a": q["a"]} for q in step["seq"]]
-    if step.get("op") == "serialise_later":
+    if step.get("op") in ("serialise_later", "keep_alive"):
         seq = [{k: q[k] for k in ("e", "a", "r") if k in q} for q in step["seq"]]
         return seq + seq[::-1]
     if step.get("r"):
@@ -1473,6 +1622,24 @@ def _judge_step_alone(i, step, rec):
     """A step run in a fresh state: argument buffers unchanged; every record of a compound step equals the fresh-state
     observation of the plain call."""
     _judge_mutations(i, step, rec)
+    if step.get("op") == "keep_alive":
+        # every result observed again after all results of the batch existed: equal to its own first observation (which, for a
+        # sample of the batch, is also compared with the fresh-state observation of the plain call)
+        n, parts = len(step["seq"]), _parts(step)
+        if len(rec["multi"]) != 2 * n:
+            raise HarnessError("keep_alive step returned a different number of records")
+        for k in range(n):
+            first, later = rec["multi"][k], rec["multi"][2 * n - 1 - k]
+            if first != later:
+                raise Fail("serialise_later_same_result", observed={"call_index": i, "entry": parts[k]["e"], "call": parts[k], "step": f"result of call {k + 1} of {n} observed / serialised again after all {n} results existed",
+                                                                   "first_difference": _first_diff(later, first, "$", "observed_later", "observed_at_once")},
+                           expected="the observation taken right after the call (results of other calls must not alter it)", klass=parts[k]["e"])
+        for k in sorted({0, n // 2, n - 1})[:KEEP_ALIVE_FRESH]:
+            B = _alone(parts[k])
+            if rec["multi"][k] != B:
+                raise Fail("serialise_later_same_result", observed={"call_index": i, "entry": parts[k]["e"], "call": parts[k], "step": f"call {k + 1} of {n}", "first_difference": _first_diff(rec["multi"][k], B, "$", "observed", "fresh_state")},
+                           expected="the observation the plain call gives in a fresh interpreter state", klass=parts[k]["e"])
+        return
     if step.get("op"):
         clause, labels = COMPOUND[step["op"]]
         for k, (r, plain) in enumerate(zip(rec["multi"], _parts(step))):
@@ -1664,6 +1831,33 @@ def _rejected(eid: str, keep: int = 6):
     return _REJECTED[eid]
 
 
+_REFUSED: dict = {}
+
+
+def _refused(eid: str, keep: int = 2):
+    """wrong-typed variants of an entry's first canonical call (None / a float / a numeric string in place of one argument) that the
+    library answers with an exception in a fresh state; at most ``keep`` per entry, one per (argument, exception type), arguments first"""
+    if eid not in _REFUSED:
+        import_library()
+        found, sigs = [], set()
+        for c in wrong_type_candidates(CATALOGUE[eid]):
+            call = {"e": c["e"], "a": c["a"]}
+            try:
+                o = _observe_quickly(call)
+            except HarnessError:
+                continue  # refused by the entry script itself, before the library saw it
+            if "raised" in o and (c["arg"], o["raised"][0]) not in sigs:
+                sigs.add((c["arg"], o["raised"][0]))
+                found.append((c["arg"], call))
+        out, args = [], []
+        for arg, call in found:  # one per argument first
+            if arg not in args and len(out) < keep:
+                args.append(arg)
+                out.append(call)
+        _REFUSED[eid] = out
+    return _REFUSED[eid]
+
+
 _UNUSUAL: dict = {}
 
 
@@ -1703,6 +1897,384 @@ def _same_object_steps(x):
                 ay.update({n: v for n, v in ax.items() if n in CATALOGUE[y].args and n not in fixed and n in ("data", "bt", "gps")})
                 ay.update(fixed)
                 out.append({"e": x["e"], "a": ax, "op": "same_object", "seq": [X, {"e": y, "a": ay}, X]})
+    return out
+
+
+# ---------------------------------------------------------------------------------------------- related values (round 7)
+#
+# A *cluster* is a small set of calls that share a coarse key although they differ in entry point, mode or raw value: the fold target of
+# an enum and raw values that `_missing_` folds onto it, in every PDU family that carries the field; one value through every sibling
+# writer / code / mode of an entry; one argument value through every entry of the group that takes an argument of that name; the same
+# four octets as an IP address in either byte order through every Hytera PDU that carries one; near-twins of one message that differ
+# in a single octet (top bit flipped, 0x7F / 0xFF).  A memo, register or enum singleton keyed by the coarse key carries state between
+# exactly such calls.  Every cluster runs as: one *circuit* (a history in which every ordered pair of its calls occurs adjacently,
+# hence also X, Y, X for every X, Y), explicit triples X, Y, X (each in its own child: the first X is the first use of the shared
+# state), and a serialise_later step that keeps all results alive and observes them again.
+
+
+def _euler(n: int):
+    """indices 0..n-1 in an order in which every ordered pair (i, j), i != j, occurs adjacently exactly once (Eulerian circuit of the
+    complete digraph); length n(n-1)+1"""
+    if n < 2:
+        return list(range(n))
+    nxt = {i: [j for j in range(n - 1, -1, -1) if j != i] for i in range(n)}
+    stack, circuit = [0], []
+    while stack:
+        v = stack[-1]
+        if nxt[v]:
+            stack.append(nxt[v].pop())
+        else:
+            circuit.append(stack.pop())
+    return circuit[::-1]
+
+
+def _rbits(tag: str, n: int) -> str:
+    import random
+
+    return format(random.Random("C19/site/" + tag).getrandbits(n), f"0{n}b") if n else ""
+
+
+def _put(s: str, off: int, w: int, v: int) -> str:
+    return s[:off] + format(v & ((1 << w) - 1), f"0{w}b") + s[off + w:]
+
+
+def _puthex(h: str, byte: int, v: int, mask: int = 0xFF, shift: int = 0) -> str:
+    b = bytearray(bytes.fromhex(h))
+    b[byte] = (b[byte] & ~(mask << shift) & 0xFF) | ((v & mask) << shift)
+    return bytes(b).hex()
+
+
+_B_CSBK = "10" + "111000" + "00000000" + _rbits("csbk", 64) + "0" * 16              # BS outbound activation
+_B_CSBK_ANN = "10" + "101000" + "00000000" + _rbits("csbk-ann", 64) + "0" * 16      # announcement PDU (announcement type: first 5 bits of the data)
+_B_FLC = "00" + "000000" + "00000000" + _rbits("flc", 56) + _rbits("flc-rs", 24)    # group voice channel user
+_B_SLC = "0000" + _rbits("slc", 24) + "0" * 8
+_B_SLC_ACT = "0001" + _rbits("slc-act", 24) + "0" * 8                               # activity update
+_B_DH = _rbits("dh", 4) + "0010" + "0100" + _rbits("dh2", 68) + "0" * 16            # unconfirmed data, SAP IP based
+_B_DH_SDD = "0000" + "1101" + "1010" + _rbits("dh-sdd", 68) + "0" * 16              # short data defined
+_B_DH_UDT = "0000" + "0000" + "0000" + _rbits("dh-udt", 68) + "0" * 16              # unified data transport
+_B_ST = "0001" + "0011" + "0" * 12
+_B_UDP = _rbits("udp", 16) + "0000" + "0001" + "0" + "0000001" + "0" + "0000010" + _rbits("udp-data", 32)
+_B_EMB = "0001" + "0" + "00" + "0" * 9
+# (enum, entry, argument, base value, offset, width) - bit strings
+BIT_SITES = [
+    ("CsbkOpcodes", "csbk.from_bits", "bits", _B_CSBK, 2, 6), ("FeatureSetIDs", "csbk.from_bits", "bits", _B_CSBK, 8, 8),
+    ("AnnouncementType", "csbk.from_bits", "bits", _B_CSBK_ANN, 16, 5), ("FLCOs", "full_lc.from_bits", "bits", _B_FLC, 2, 6),
+    ("FeatureSetIDs", "full_lc.from_bits", "bits", _B_FLC, 8, 8), ("FeatureSetIDs", "full_lc.from_bits", "bits", _B_FLC[:77], 8, 8),
+    ("SLCOs", "short_lc.from_bits", "bits", _B_SLC, 0, 4),
+    ("ActivityID", "short_lc.from_bits", "bits", _B_SLC_ACT, 4, 4), ("ActivityID", "short_lc.from_bits", "bits", _B_SLC_ACT, 8, 4),
+    ("DataPacketFormats", "data_header.from_bits", "bits", _B_DH, 4, 4), ("SAPIdentifier", "data_header.from_bits", "bits", _B_DH, 8, 4),
+    ("SAPIdentifier", "data_header.from_bits", "bits", _B_DH_SDD, 8, 4), ("DefinedDataFormats", "data_header.from_bits", "bits", _B_DH_SDD, 64, 6),
+    ("UDTFormat", "data_header.from_bits", "bits", _B_DH_UDT, 12, 4), ("CsbkOpcodes", "data_header.from_bits", "bits", _B_DH_UDT, 74, 6),
+    ("DataTypes", "slot_type.from_bits", "bits", _B_ST, 4, 4),
+    ("IPAddressIdentifier", "udp_header.from_bits", "bits", _B_UDP, 16, 4), ("IPAddressIdentifier", "udp_header.from_bits", "bits", _B_UDP, 20, 4),
+    ("UDPPortIdentifier", "udp_header.from_bits", "bits", _B_UDP, 25, 7), ("UDPPortIdentifier", "udp_header.from_bits", "bits", _B_UDP, 33, 7),
+    ("LCSS", "emb.from_bits", "bits", _B_EMB, 5, 2),
+]
+# (enum, entry, argument, base value, octet, mask, shift, other arguments) - hex strings
+HEX_SITES = [
+    ("FeatureSetIDs", "csbk.from_bytes", "data", "b800" + "0000000065" + "0000ca" + "c42f", 1, 0xFF, 0, {}),
+    ("FeatureSetIDs", "full_lc.from_bytes", "data", "0000" + "000000062" + "0baefe8" + "0000", 1, 0xFF, 0, {}),
+    ("FeatureSetIDs", "full_lc.from_bytes", "data", V_FULL_LC_10[0], 1, 0xFF, 0, {}),
+    ("DataPacketFormats", "data_header.from_bytes", "data", V_DATA_HEADER[1], 0, 0x0F, 0, {}), ("SAPIdentifier", "data_header.from_bytes", "data", V_DATA_HEADER[1], 1, 0x0F, 4, {}),
+    ("FailureReason", "ars.from_bytes", "data", "0002ff00", 3, 0xFF, 0, {}), ("FailureReason", "ars.from_bytes", "data", "0004ff001080", 3, 0xFF, 0, {}),
+    ("TMSEncoding", "tms.from_bytes", "data", "000DE00101954461006800" + "6F006A00", 6, 0x1F, 0, {"endian": "big"}),
+    ("PacketType", "ipsc.from_ipsc_bytes", "data", V_IPSC[0], 8, 0xFF, 0, {}), ("FrameType", "ipsc.from_ipsc_bytes", "data", V_IPSC[0], 22, 0xFF, 0, {}),
+    ("PacketType", "burst.from_hytera_ipsc", "data", V_IPSC[0], 8, 0xFF, 0, {"kaitai": False}),
+]
+
+
+def _rcp_status_frame(target: int, setting: int) -> str:
+    return _hdap_frame({"svc": 0x02, "rel": False, "op": (0x10C7).to_bytes(2, "little").hex(), "le": True, "payload": "01%02x%02x" % (target & 0xFF, setting & 0xFF)})
+
+
+def _enum_sites(cls: str):
+    """[(label, value -> call)]: the places of the catalogue where a value of the enum enters the library"""
+    out = [("enum.by_value", lambda v: {"e": "enum.by_value", "a": {"ev": {"cls": cls, "value": v}}})]
+    if cls in ELEMENTS:
+        w = ELEMENTS[cls][1]
+        out.append(("element.from_bits", lambda v: {"e": "element.from_bits", "a": {"eb": {"cls": cls, "bits": format(v, f"0{w}b")}}} if v < (1 << w) else None))
+    for c, e, arg, base, off, w in BIT_SITES:
+        if c == cls:
+            out.append((f"{e}[{off}:{off + w}]/{len(base)}", lambda v, e=e, arg=arg, base=base, off=off, w=w: {"e": e, "a": {arg: _put(base, off, w, v)}} if v < (1 << w) else None))
+    for c, e, arg, base, byte, mask, shift, other in HEX_SITES:
+        if c == cls:
+            out.append((f"{e}[{byte}]/{len(base) // 2}", lambda v, e=e, arg=arg, base=base, byte=byte, mask=mask, shift=shift, other=other:
+                        {"e": e, "a": {arg: _puthex(base.lower(), byte, v, mask, shift), **other}} if v <= mask else None))
+    if cls == "DataTypes":
+        out.append(("slot_type.new", lambda v: {"e": "slot_type.new", "a": {"cc": 1, "dt": v, "parity": 0}}))
+    if cls == "LCSS":
+        out.append(("emb.new", lambda v: {"e": "emb.new", "a": {"cc": 1, "pi": 0, "lcss": v, "parity": 0}}))
+    if cls == "StatusChangeNotificationTargets":
+        out.append(("rcp.from_bytes", lambda v: {"e": "rcp.from_bytes", "a": {"data": _rcp_status_frame(v, 1)}}))
+        out.append(("rcp.status_change_request", lambda v: {"e": "rcp.status_change_request", "a": {"settings": [{"target": v, "setting": 1}]}}))
+    if cls == "StatusChangeNotificationSetting":
+        out.append(("rcp.from_bytes", lambda v: {"e": "rcp.from_bytes", "a": {"data": _rcp_status_frame(2, v)}}))
+        out.append(("rcp.status_change_request", lambda v: {"e": "rcp.status_change_request", "a": {"settings": [{"target": 2, "setting": v}]}}))
+    return out
+
+
+_FOLDS: dict = {}
+
+
+def _folds(cls: str) -> dict:
+    """{target value: [raw values 0..255 that the library resolves to the member carrying the target value]} as the library under
+    test answers in a fresh state (one forked child per enum, cached; computed in the parent so that the workers inherit it)"""
+    if cls not in _FOLDS:
+        import_library()
+        try:
+            tab = _observe_quickly({"e": "enum.fold_table", "a": {"cls": cls}}).get("ok")
+        except HarnessError:
+            tab = None
+        d: dict = {}
+        if isinstance(tab, list) and len(tab) == 256:
+            for v, t in enumerate(tab):
+                if isinstance(t, int) and t >= 0 and t != v:
+                    d.setdefault(t, []).append(v)
+        _FOLDS[cls] = d
+    return _FOLDS[cls]
+
+
+def _spread(vals, k: int):
+    vals = list(vals)
+    if len(vals) <= k:
+        return vals
+    step = (len(vals) - 1) / (k - 1)
+    return [vals[round(i * step)] for i in range(k)]
+
+
+def _dedup(calls):
+    out, seen = [], set()
+    for c in calls:
+        if c is not None and _key(c) not in seen:
+            seen.add(_key(c))
+            out.append(c)
+    return out
+
+
+def fold_clusters(max_sites: int = 6):
+    """per enum and fold target: the target value and <= 3 raw values that fold onto it (lowest, a middle one, highest), each through
+    every site of the enum"""
+    out = []
+    for cls in sorted(ENUM_CLASSES):
+        sites = _enum_sites(cls)[:max_sites]
+        for t, raws in sorted(_folds(cls).items()):
+            vals = [t] + _spread(raws, 3)
+            calls = _dedup([fn(v) for v in vals for _, fn in sites])
+            if len(calls) >= 2:
+                out.append({"rel": f"fold:{cls}->{t}", "calls": calls, "anchor": len(sites)})
+    return out
+
+
+def code_clusters():
+    """block codes: the same data word and the same error position through every Hamming code (siblings that share k or n, or
+    nothing but a table), through generate / repair / numpy repair / syndrome"""
+    import random
+
+    out = []
+    word = format(random.Random("C19/code-word").getrandbits(17), "017b")
+    for p in range(17):
+        calls = []
+        for code, (_, _, n, k) in HAMMINGS.items():
+            if p < n:
+                calls.append({"e": "hamming.encode_then_repair", "a": {"cb": {"code": code, "bits": word[:k]}, "flip": p}})
+        out.append({"rel": f"code:error_position={p}", "calls": calls, "anchor": len(calls)})
+    for p, q in ((0, 1), (0, 15), (2, 9), (3, 12), (5, 6), (7, 14), (10, 11), (4, 16)):  # double errors next to single errors at the same positions
+        calls = []
+        for code, (_, _, n, k) in HAMMINGS.items():
+            if p < n:
+                calls.append({"e": "hamming.encode_then_repair", "a": {"cb": {"code": code, "bits": word[:k]}, "flip": p, "flip2": q % n}})
+                calls.append({"e": "hamming.encode_then_repair", "a": {"cb": {"code": code, "bits": word[:k]}, "flip": q % n}})
+        out.append({"rel": f"code:double_error={p},{q}", "calls": calls, "anchor": 0})
+    # BPTC(196,96): a single error, the Hamming codes of its rows and columns (and their siblings) at the same position, then two errors in one
+    # column of the 13 x 15 matrix (transmitted index of matrix cell (r, c): 13 * (15 r + c + 1) mod 196)
+    data96 = format(random.Random("C19/bptc-data").getrandbits(96), "096b")
+    cell = lambda r, c: (13 * (15 * r + c + 1)) % 196
+    for c in range(15):
+        r1, r2 = c % 9, (c % 9) + 2 + c % 3
+        calls = [{"e": "bptc.codeword_with_errors", "a": {"bits": data96, "flips": [cell(r1, c)], "deinterleaved": False}}]
+        calls += [{"e": "hamming.encode_then_repair", "a": {"cb": {"code": code, "bits": word[:HAMMINGS[code][3]]}, "flip": c % HAMMINGS[code][2]}} for code in ("h16114", "h1393", "h17123")]
+        calls += [{"e": "bptc.codeword_with_errors", "a": {"bits": data96, "flips": [cell(r1, c), cell(r2, c)], "deinterleaved": d}} for d in (False, True)]
+        out.append({"rel": f"code:bptc_column={c}", "calls": calls, "anchor": 0})
+    for which, eids in ((3, ["hamming.generate"]), (2, ["hamming.check", "hamming.check_and_correct", "hamming.correct_numpy_array", "fec.syndrome"])):
+        for j in range(2):
+            w = format(random.Random(f"C19/code-word/{which}/{j}").getrandbits(17), "017b")
+            out.append({"rel": f"code:same_word_every_code_{'k' if which == 3 else 'n'}{j}", "anchor": 0,
+                        "calls": [{"e": e, "a": {"cb": {"code": code, "bits": w[:HAMMINGS[code][which]]}}} for e in eids for code in HAMMINGS]})
+    return out
+
+
+def varint_clusters():
+    """one magnitude (one per bit length 1..31: the top bit and a random tail) through every sibling writer"""
+    import random
+
+    out = []
+    for L in range(1, 32):
+        m = (1 << (L - 1)) | random.Random(f"C19/varint/{L}").getrandbits(L - 1) if L > 1 else 1
+        for m_ in sorted({m, 1 << (L - 1)}):
+            out.append({"rel": f"varint:bit_length={L}", "anchor": len(VAR_KINDS),
+                        "calls": [{"e": "mbxml.write_var", "a": {"kind": k, "m": m_, "frac": 0 if m_ == 1 << (L - 1) else 250, "p": 2}} for k in VAR_KINDS]})
+    return out
+
+
+def _arg_kind(sp):
+    import random
+
+    try:
+        v = sp.canon(random.Random("C19/kind"), 0)
+    except Exception:
+        return None
+    if isinstance(v, bool):
+        return "flag"
+    if isinstance(v, int):
+        return "int"
+    if isinstance(v, str) and not isinstance(sp, (Choice, Const, Seq)):
+        return "bits" if sp.unit() == "0" else "hex"
+    return None
+
+
+def _fits(sp, kind: str, v) -> bool:
+    """may the value v (of that kind) stand for an argument described by sp?  strings: any length where the spec is of variable /
+    structured shape, the exact length for fixed-length specs; integers: inside the range"""
+    if kind in ("bits", "hex"):
+        u = 1 if kind == "bits" else 2
+        if isinstance(sp, (Bits, Hex)):
+            return len(v) // u in (sp.n,) + tuple(sp.alts)
+        return True
+    if kind == "int":
+        return isinstance(sp, Int) and sp.lo <= v <= sp.hi
+    return False
+
+
+def mode_switch_clusters():
+    """one call under every value of one switch argument (Choice / Flag: CRC mask, configuration, endianness, burst type, block type,
+    debug ...), every other argument identical: the same value through every sibling mode"""
+    out = []
+    for eid in sorted(CATALOGUE):
+        e = CATALOGUE[eid]
+        base = canonical_calls(e, 1)
+        if not base or e.no_scribble:
+            continue
+        base = base[-1]["a"]
+        for n, sp in sorted(e.args.items()):
+            if isinstance(sp, Choice) and len(set(map(json.dumps, sp.values))) >= 2:
+                vals = []
+                for v in sp.values:
+                    if v not in vals:
+                        vals.append(v)
+                out.append({"rel": f"mode_switch:{eid}.{n}", "anchor": 0, "calls": [{"e": eid, "a": {**base, n: v}} for v in vals]})
+    return out
+
+
+def transplant_clusters(max_size: int = 10):
+    """per group and argument name: the value one entry's canonical call gives that argument, handed to every entry of the group that
+    takes a bit string / octet string / integer argument of the same name (the same frame through every parser, the same bits
+    through every CRC front end and calculator, the same word through check / repair / numpy repair ...)"""
+    out = []
+    for g, eids in sorted(_groups().items()):
+        names = sorted({n for x in eids for n in CATALOGUE[x].args})
+        for n in names:
+            holders = [x for x in eids if n in CATALOGUE[x].args and not CATALOGUE[x].no_scribble]
+            for src in holders:
+                sc = canonical_calls(CATALOGUE[src], 1)
+                kind = _arg_kind(CATALOGUE[src].args[n])
+                if not sc or kind not in ("bits", "hex", "int"):
+                    continue
+                X, v = sc[-1], sc[-1]["a"][n]
+                calls = [X]
+                for y in holders:
+                    if y == src or _arg_kind(CATALOGUE[y].args[n]) != kind or not _fits(CATALOGUE[y].args[n], kind, v):
+                        continue
+                    yc = canonical_calls(CATALOGUE[y], 1)
+                    if yc:
+                        calls.append({"e": y, "a": {**yc[-1]["a"], n: v}})
+                calls = _dedup(calls)[:max_size]
+                if len(calls) >= 2:
+                    out.append({"rel": f"transplant:{g}.{n}<-{src}", "anchor": 1, "calls": calls})
+    return out
+
+
+def ip_clusters():
+    """the same four octets as a radio IP, in either byte order, through every Hytera entry that carries an address"""
+    out = []
+    for ip in ("0a000050", "0a2338fc"):
+        rev = bytes.fromhex(ip)[::-1].hex()
+        calls = []
+        for x in (ip, rev):
+            calls += [
+                {"e": "radio_ip.from_bytes", "a": {"data": x, "endian": "big"}}, {"e": "radio_ip.from_bytes", "a": {"data": x, "endian": "little"}},
+                {"e": "rrs.from_bytes", "a": {"data": _hdap_frame({"svc": 0x11, "rel": False, "op": "0003", "le": False, "payload": x})}},
+                {"e": "rrs.from_bytes", "a": {"data": _hdap_frame({"svc": 0x11, "rel": False, "op": "0080", "le": False, "payload": x + "00" + "00000e10"})}},
+                {"e": "rcp.from_bytes", "a": {"data": _hdap_frame({"svc": 0x02, "rel": False, "op": (0x8452).to_bytes(2, "little").hex(), "le": True, "payload": "0001" + x})}},
+                {"e": "rcp.from_bytes", "a": {"data": _hdap_frame({"svc": 0x02, "rel": False, "op": (0x8452).to_bytes(2, "little").hex(), "le": True, "payload": "0000" + x})}},
+                {"e": "lp.from_bytes", "a": {"data": _hdap_frame({"svc": 0x08, "rel": False, "op": "a001", "le": False, "payload": "00000001" + x})}},
+                {"e": "tmp.from_bytes", "a": {"data": _hdap_frame({"svc": 0x09, "rel": False, "op": "80a2", "le": False, "payload": "00000001" + x + x + "05"})}},
+                {"e": "lp.new_default", "a": {"opcode": "StandardRequest", "rid": 1, "ip": x}},
+            ]
+        out.append({"rel": f"radio_ip:{ip}", "anchor": 0, "calls": _dedup(calls)})
+    return out
+
+
+def _twins(v: str, bits: bool, cap: int = 8):
+    """near-twins of a bit / octet string: one octet replaced (top bit flipped, 0x7F, 0xFF): every octet of a short string, the first
+    and last four of a longer one"""
+    u = 8 if bits else 2
+    n = len(v) // u
+    pos = list(range(n)) if n <= cap else list(range(cap // 2)) + list(range(n - cap // 2, n))
+    out = []
+    for i in pos:
+        b = int(v[i * u:(i + 1) * u], 2 if bits else 16)
+        for nb in (b ^ 0x80, 0x7F, 0xFF):
+            if nb != b:
+                out.append(v[:i * u] + (format(nb, "08b") if bits else "%02x" % nb) + v[(i + 1) * u:])
+    zero = "0" * u
+    out.append(v + zero)  # the same octets followed by a zero octet / with the trailing zero octet removed
+    if v.endswith(zero) and len(v) > u:
+        out.append(v[:-u])
+    return out
+
+
+def twin_batches(cap: int = 400):
+    """per entry that returns objects (parsers, constructors): every mode's first call and its near-twins, all kept alive in one
+    keep_alive step (a memoised sub-object shared by two results shows when the earlier result is serialised again)"""
+    out = []
+    for eid in sorted(CATALOGUE):
+        e = CATALOGUE[eid]
+        if not (e.parse or eid.endswith(".new_default") or eid.endswith(".new")) or e.no_scribble or eid in VOLATILE:
+            continue
+        seq = []
+        for fam in mode_families(e):
+            x = fam[0]
+            seq += fam
+            for n, sp in sorted(e.args.items()):
+                kind = _arg_kind(sp)
+                v = x["a"].get(n)
+                if kind in ("bits", "hex") and isinstance(v, str) and v:
+                    seq += [{"e": eid, "a": {**x["a"], n: t}} for t in _twins(v, kind == "bits", 8 if e.group in ("motorola", "mbxml", "pdu") else 4)]
+        seq = _dedup(seq)
+        if len(seq) > cap:  # spread over the modes
+            seq = _spread(seq, cap)
+        if len(seq) >= 2:
+            out.append({"rel": f"twins:{eid}", "seq": seq})
+    return out
+
+
+def all_clusters():
+    return fold_clusters() + code_clusters() + varint_clusters() + mode_switch_clusters() + transplant_clusters() + ip_clusters()
+
+
+def cluster_cases(cl, triples: bool = True):
+    """the histories of one cluster: the circuit, the kept-alive step (both orders), explicit triples X, Y, X (X: the first `anchor` calls -
+    the calls with the anchor value - or, with anchor 0, every call; Y: the next call of the cluster in a rotation)"""
+    calls, rel = cl["calls"], cl["rel"]
+    n = len(calls)
+    out = [{"kind": "related_circuit", "rel": rel, "calls": [calls[i] for i in _euler(n)]}]
+    for order in (calls, calls[::-1]):
+        out.append({"kind": "related_kept_alive", "rel": rel, "calls": [{"e": order[0]["e"], "a": order[0]["a"], "op": "serialise_later", "seq": list(order)}]})
+    if triples:
+        for i in range(cl.get("anchor") or n):
+            for j in {(i + 1 + (i % max(1, n - 1))) % n, (i + (cl.get("anchor") or 1)) % n}:
+                if j != i and i < n:
+                    out.append({"kind": "related_triple", "rel": rel, "calls": [calls[i], calls[j], calls[i]]})
     return out
 
 
@@ -1793,11 +2365,24 @@ def history_strategy(max_len: int = 12, probes: bool = True):
 
     def with_representation(calls_s):
         """a quarter of the plain calls get their bit-string arguments as little-endian / frozen bitarrays"""
-        return st.tuples(calls_s, st.lists(st.sampled_from([None, None, None, None, None, None, "little", "frozen"]), min_size=12, max_size=12)).map(
+        return st.tuples(calls_s, st.lists(st.sampled_from([None, None, None, None, None, None, "little", "frozen", None, "bytearray"]), min_size=12, max_size=12)).map(
             lambda t: [({**c, "r": t[1][i % 12]} if t[1][i % 12] and not c.get("op") else c) for i, c in enumerate(t[0])])
 
     def same_object_again(e):
         return st.tuples(call_of[e], st.integers(0, 7), st.lists(any_call, max_size=2)).map(lambda t: [(lambda ss: ss[t[1] % len(ss)])(_same_object_steps(t[0]))] + t[2])
+
+    pools = [cl["calls"] for cl in all_clusters()] + [b["seq"] for b in twin_batches(60)]
+
+    def related(pool):
+        """two or three calls of one cluster of related calls (see 'related values'), as X, Y, X / X, noise, Y, X / a kept-alive step"""
+        def build(t):
+            xs, noise, shape = t
+            x, y = xs[0], xs[1 % len(xs)]
+            if shape == "kept_alive":
+                return [{"e": x["e"], "a": x["a"], "op": "serialise_later", "seq": xs}] + noise
+            return [x] + (noise if shape == "noise" else []) + [y] + ([xs[2]] if len(xs) > 2 and shape == "xyzx" else []) + [x]
+
+        return st.tuples(st.lists(st.sampled_from(pool), min_size=2, max_size=3), st.lists(any_call, max_size=2), st.sampled_from(["xyx", "xyx", "noise", "xyzx", "kept_alive"])).map(build)
 
     return st.one_of(
         kind("rejected_then_valid", st.sampled_from(ids).flatmap(rejected_then_valid)),
@@ -1805,6 +2390,7 @@ def history_strategy(max_len: int = 12, probes: bool = True):
         kind("serialise_later", st.sampled_from(sorted(groups)).flatmap(serialise_later)),
         kind("representation", with_representation(st.sampled_from(sorted(groups)).flatmap(lambda g: st.lists(group_call[g], min_size=2, max_size=6)))),
         kind("same_object_again", st.sampled_from(obj_ids).flatmap(same_object_again)),
+        kind("related", st.sampled_from(range(len(pools))).flatmap(lambda i: related(pools[i]))),
         kind("scribble_and_repeat", st.tuples(st.lists(any_compound, min_size=1, max_size=3), st.lists(any_call, max_size=3)).map(lambda t: t[0] + t[1])),
         kind("random", st.lists(any_call, min_size=1, max_size=max_len)),
         kind("group", st.sampled_from(sorted(groups)).flatmap(lambda g: st.lists(group_call[g], min_size=2, max_size=min(10, max_len)))),
@@ -2006,6 +2592,15 @@ def drv_pairs(ctx: Ctx, sub: SubCheck):
                 for pair in ((x, xr), (xr, x), (xr, fams[0][-1])):
                     ctx.run_case(sub.name, oracle_history, {"kind": "representation", "calls": list(pair)}, t)
                     t.case(sub.name, nontrivial=True, cls="pair_other_bit_container_" + r)
+        # the same octets handed over as bytearray instead of bytes (a memo keyed by the value must not mix the containers up); no memoryview:
+        # slices of it stay memoryviews inside the parsed objects and their reprs carry addresses
+        if fams and any(_arg_kind(sp) == "hex" for sp in e.args.values()):
+            x = fams[0][0]
+            for r in ("bytearray",):
+                xr = {**x, "r": r}
+                for pair in ((x, xr), (xr, x)):
+                    ctx.run_case(sub.name, oracle_history, {"kind": "representation", "calls": list(pair)}, t)
+                    t.case(sub.name, nontrivial=True, cls="pair_other_octet_container_" + r)
         if rej:
             t.sample(sub.name, {"kind": "rejected_then_valid", "calls": [rej[0], readers[0]]})
 
@@ -2045,6 +2640,93 @@ def drv_pairs(ctx: Ctx, sub: SubCheck):
         "every ordered pair of canonical calls (directed + <=2 generated variants per entry) inside a group, one child per pair; across groups one sweep per entry")
     ctx.tally.notes.append("pairs: exhaustive over ordered pairs of the fixed canonical calls only (not over arguments); every mode of every entry "
                            "(each-choice over opcode / variant / length switches of the argument specs) with two same-shape calls: ordered pairs, argument re-use, scribble-and-repeat")
+
+
+def drv_related(ctx: Ctx, sub: SubCheck):
+    """Clusters of related calls (see 'related values' above): circuit, kept-alive steps and explicit triples of every cluster;
+    near-twin batches kept alive.  A failing circuit / batch is re-examined as the smallest history that still fails."""
+    _self_check()
+    import_library()
+    clusters = all_clusters()  # fold tables are observed here, in forked children of the parent; the workers inherit them
+    batches = twin_batches(ctx.pick(400, 1200))
+
+    def shrink_history(case, f: Fail, t: Tally) -> bool:
+        """candidates cut from a failing circuit around the judged call; True when one of them failed (and was recorded)"""
+        cs, o = case["calls"], f.observed or {}
+        i, j = o.get("call_index"), o.get("culprit_index")
+        if not isinstance(i, int) or i <= 0:
+            return False
+        cands = ([[cs[j], cs[i]]] if isinstance(j, int) else []) + [[cs[i - 1], cs[i]], [cs[i], cs[i - 1], cs[i]]] + ([[cs[i - 2], cs[i - 1], cs[i]]] if i >= 2 else [])
+        for cand in cands:
+            if not ctx.run_case(sub.name, oracle_history, {"kind": "related_triple", "rel": case.get("rel"), "calls": cand}, t):
+                return True
+        return False
+
+    def shrink_batch(case, f: Fail, t: Tally) -> bool:
+        seq, call = case["calls"][0]["seq"], (f.observed or {}).get("call")
+        if not call:
+            return False
+        for other in seq:
+            if _key(other) == _key(call):
+                continue
+            for order in ([call, other], [other, call]):
+                step = {"e": order[0]["e"], "a": order[0]["a"], "op": "serialise_later", "seq": order}
+                if not ctx.run_case(sub.name, oracle_history, {"kind": "related_kept_alive", "rel": case.get("rel"), "calls": [step]}, t):
+                    return True
+        return False
+
+    def run(case, t: Tally, cls: str, shrink=None):
+        if shrink is None:
+            ctx.run_case(sub.name, oracle_history, case, t)
+        else:
+            try:
+                oracle_history(case)
+            except Fail as f:
+                if not shrink(case, f, t):
+                    ctx.judge(sub.name, case, f, t)
+                t.case(sub.name, cls="failing")
+        t.case(sub.name, nontrivial=True, cls=cls)
+
+    first = {}
+    for eid in sorted(CATALOGUE):
+        cc = canonical_calls(CATALOGUE[eid], 1)
+        if cc and not CATALOGUE[eid].no_scribble:
+            first[eid] = cc[-1]
+
+    def refused_work(eid, t: Tally):
+        """a call refused for a wrong-typed argument, then - directly after it - the first canonical call of every entry of the group
+        (one child: R, r1, R, r2, ...; a difference is re-examined as the exact pair)"""
+        readers = [first[eid]] + [c for x, c in sorted(first.items()) if CATALOGUE[x].group == CATALOGUE[eid].group and x != eid] if eid in first else []
+        for R in _refused(eid) if readers else []:
+            hist = [c for r in readers for c in (R, r)]
+            run({"kind": "refused_then_valid", "rel": f"refused:{eid}", "calls": hist}, t, "refused_wrong_type_then_valid", shrink_history)
+            t.cls(sub.name, "refused_wrong_type_reader_calls", len(readers))
+
+    def work(chunk, t: Tally):
+        for it in chunk:
+            if isinstance(it, str):
+                refused_work(it, t)
+                continue
+            fam = it["rel"].split(":")[0]
+            if "seq" in it:
+                seq = it["seq"]
+                run({"kind": "twins_kept_alive", "rel": it["rel"], "calls": [{"e": seq[0]["e"], "a": seq[0]["a"], "op": "keep_alive", "seq": seq}]}, t, "twins_kept_alive_batch", shrink_batch)
+                t.cls(sub.name, "twins_kept_alive_calls", len(seq))
+                continue
+            for case in cluster_cases(it):
+                run(case, t, f"{fam}_{case['kind'][8:]}", shrink_history if case["kind"] == "related_circuit" else None)
+            t.cls(sub.name, "clusters_" + fam)
+            t.cls(sub.name, "cluster_calls_" + fam, len(it["calls"]))
+        if chunk and not isinstance(chunk[0], str):
+            t.sample(sub.name, cluster_cases(chunk[0])[-1] if "seq" not in chunk[0] else {"kind": "twins_kept_alive", "rel": chunk[0]["rel"], "calls": [{"e": chunk[0]["seq"][0]["e"], "a": chunk[0]["seq"][0]["a"], "op": "keep_alive", "seq": chunk[0]["seq"][:4]}]})
+
+    items = sorted(batches, key=lambda b: -len(b["seq"])) + clusters + sorted(CATALOGUE)
+    ctx.shards(work, [c for c in (items[i::64] for i in range(64)) if c])
+    ctx.tally.exhaustive[sub.name] = True
+    ctx.tally.extra["related_clusters"] = len(clusters)
+    ctx.tally.extra["fold_targets_observed"] = {cls: {str(t): len(r) for t, r in sorted(d.items())} for cls, d in sorted(_FOLDS.items()) if d}
+    ctx.tally.notes.append("related: exhaustive over the fixed clusters only (fold targets x sites, error positions x codes, bit lengths x writers, switch values, "
+                           "same-named arguments inside a group, two IP addresses, near-twins of every mode's first call); the fold targets are those the library under test answers")
 
 
 def _clock_cases():
@@ -2116,6 +2798,7 @@ def drv_clock(ctx: Ctx, sub: SubCheck):
 SUBCHECKS = [
     SubCheck("history", oracle_history, drv_history, "Hypothesis histories of 1..12 steps (plain calls, rejected-then-valid, unusual-then-ordinary, serialise-later, representation variants, scribble-and-repeat, argument re-use, same-object-again): child A (history) vs children B_i (step alone); argument buffers and argument objects unchanged"),
     SubCheck("pairs", oracle_history, drv_pairs, "ordered pairs of canonical calls (writer, reader); every mode of every entry: same-shape ordered pairs, argument re-use, scribble-and-repeat; rejected / unusual variant then every entry of the group; same-object and serialise-later steps; little-endian / frozen containers; same differential oracle"),
+    SubCheck("related", oracle_history, drv_related, "clusters of calls that share a coarse key (enum fold target and raw values folding onto it through every site; one word / error position through every block code; one magnitude through every varint writer; one call under every value of a switch argument; one argument value through every entry of the group; the same IP octets in both byte orders; near-twins of every mode's first call): circuit with every ordered pair adjacent, X Y X triples, results kept alive and serialised again; same differential oracle"),
     SubCheck("clock", oracle_clock, drv_clock, "four fresh interpreters: parsing calls agree under clocks pinned to 2026-09-26, 1971-01-02 and 2099-12-30 (inputs with dates on both sides of each clock) and different random streams; all calls agree under a 0xCD-filling allocator"),
 ]
 
